@@ -23,7 +23,7 @@ PROP = dict(
                  "mutation of kept values uses the exported Row.SetBit / Row.Merge"],
     tags=["gs", "groar", "gr2"],
     units=[
-        U("roaring", "./roaring", "^TestVerifC03_Roaring", 520, 40000, steps=30, env={"GOMAXPROCS": "2", "GOGC": "400"}),
+        U("roaring", "./roaring", "^TestVerifC03_Roaring", 520, 16000, steps=30, env={"GOMAXPROCS": "2", "GOGC": "400"}),
         U("frag", ".", "^TestVerifC03_Fragment$", 440, 6000, sq=4, sth=12, timeout={"quick": 600, "thorough": 3000}),
         U("api", "./server", "^TestVerifC03_API$", 80, 1500, sq=4, sth=12, timeout={"quick": 600, "thorough": 3000}),
     ],
